@@ -587,7 +587,7 @@ def overused_constant(source: str, *, root_is_static: bool) -> str:
 
         # root is a Module and has no lineno
         best_common_scope = max(
-            common_scopes, key=lambda node: getattr(node, "lineno", 1), default=root
+            common_scopes, key=lambda node: getattr(node, "lineno", 0), default=root
         )
         nodes = list(nodes)
         if (
